@@ -48,7 +48,8 @@ def _c06_dep_py(idx, w, sz, sl, fr, P, i, n, s, c):
 
 _DP = "c06_dep(idx, w, sz, sl, fr, P, {i}, {n}, {s}, {c})"
 _D = lambda i="i", n="n", s="s", c="c": _DP.format(i=i, n=n, s=s, c=c)
-_SHP = "idx.shape[0] == S and w.shape[0] == S and w.shape[1] == C and sz.shape[0] == S"
+_SHP = "idx.shape[0] == S and w.shape[0] == S and w.shape[1] == C and sz.shape[0] == S and P >= 0"
+_SHP2 = "idx.shape[0] == S and w.shape[0] == S and w.shape[1] == C and sz.shape[0] == S"
 _SZOK = "forall(0, S, lambda s: 0 <= sz[s] and sz[s] <= C)"
 _MMS = "sumto({n}, lambda t: (fr[i] * c06_wt(idx, w, sz, t, {p}) if sl[t] == i else 0))"
 _ENT = "(fr[i] * w[s, c] if sl[s] == i and 0 <= idx[s, c] and idx[s, c] < n else 0)"
@@ -108,7 +109,7 @@ spec_fn(
         dict(name="sum", induct="n", lo=0, hi="RP",
              stmt="forall(0, RN, lambda i: sumto(n, lambda p: R[i, p]) == " + _RS() + ", pat=sumto(n, lambda p: R[i, p]))"),
         dict(name="cong", induct="n", lo=0, hi="RP",
-             stmt="forall(0, RN, lambda i: implies(i < N and " + _SHP + " and forall(0, n, lambda p: R[i, p] == " + _MMS.format(n="S", p="p") + "),"
+             stmt="forall(0, RN, lambda i: implies(i < N and " + _SHP2 + " and forall(0, n, lambda p: R[i, p] == " + _MMS.format(n="S", p="p") + "),"
                   " " + _RS() + " == sumto(n, lambda p: " + _MMS.format(n="S", p="p") + ")), pat=" + _RS() + ")"),
     ],
     py=lambda R, idx, w, sz, sl, fr, i, n: float(np.sum(np.asarray(R, dtype=float)[i, :n])),
@@ -124,11 +125,11 @@ contract(
     types={"pix_indexes_for_sub_slim_index": "int[2]", "pix_size_for_sub_slim_index": "int[1]",
            "pix_weights_for_sub_slim_index": "real[2]", "pixels": "int", "total_mask_pixels": "int",
            "slim_index_for_sub_slim_index": "int[1]", "sub_fraction": "real[1]"},
-    returns="real[2]", let=_MM_LET, requires=_MM_REQ,
+    returns="real[2]", let=_MM_LET, requires=_MM_REQ, timeout_ms=4000,
     ensures=["result.shape[0] == N", "result.shape[1] == P",
              "forall(0, N, lambda i: forall(0, P, lambda p: result[i, p] == " + _MM.format(n="S") + "))",
              # every row sums to the weight deposited in it ...
-             "forall(0, N, lambda i: sumto(P, lambda p: result[i, p]) == c06_dep(idx, w, sz, sl, fr, P, i, P, S, 0))",
+             "forall(0, N, lambda i: c06_rs(result, idx, w, sz, sl, fr, i, P) == c06_dep(idx, w, sz, sl, fr, P, i, P, S, 0))",
              # ... which is one when each sub-pixel's weights sum to one and the sub-fractions of a pixel's sub-pixels sum to one
              "implies(" + _H1 + " and " + _H2 + ", forall(0, N, lambda i: sumto(P, lambda p: result[i, p]) == 1))",
              "implies(" + _NONNEG + ", forall(0, N, lambda i: forall(0, P, lambda p: result[i, p] >= 0)))"],
@@ -169,3 +170,321 @@ def _g_mm(rng, tier):
 
 CONTRACTS[MU + "mapping_matrix_from"].gen = _g_mm
 CONTRACTS[MU + "mapping_matrix_from"].nontrivial = lambda **kw: kw["slim_index_for_sub_slim_index"].shape[0] > 1
+
+
+# ----------------------------------------------------------------------------------------------- rectangular neighbours
+# flat index of cell (r, c) of an H x W grid (row-major).  The lemma gives bounds and injectivity without asking the solver
+# for non-linear integer reasoning: cells of an earlier row lie strictly below every cell of a later row.
+_FL = lambda r, c: "c06_flat(H, W, %s, %s)" % (r, c)
+spec_fn(
+    "c06_flat", params=[("H", "$int"), ("W", "$int"), ("r", "int"), ("c", "int")], ret="int",
+    axioms=["forall(0, H + 1, lambda r: forall(0, W + 1, lambda c: " + _FL("r", "c") + " == r * W + c, pat=" + _FL("r", "c") + "))"],
+    lemmas=[dict(name="lt", induct="n", lo=0, hi="H", hints=[_FL("n", "0")],
+                 stmt="forall(0, n, lambda r1: forall(0, W, lambda c1: forall(0, W, lambda c2:"
+                      " " + _FL("r1", "c1") + " + W - c1 + c2 <= " + _FL("n", "c2") + ", pat=((" + _FL("r1", "c1") + ", " + _FL("n", "c2") + "),))))")],
+    py=lambda H, W, r, c: int(r * W + c),
+    doc="row-major flat index r*W + c of a rectangular mesh cell (C06 neighbour lists)",
+)
+
+# number of 4-connected neighbours of cell (r, c), and the k-th of them in ascending flat order (-1 beyond the degree):
+# the candidates in ascending order are up (r-1,c), left (r,c-1), right (r,c+1), down (r+1,c), each present iff inside the grid
+macro("c06_deg", ["H", "W", "r", "c"], "(1 if r > 0 else 0) + (1 if c > 0 else 0) + (1 if c < W - 1 else 0) + (1 if r < H - 1 else 0)")
+macro("c06_nbk", ["H", "W", "r", "c", "k"],
+      "(c06_flat(H, W, r - 1, c) if r > 0 and k < 1 else"
+      " (c06_flat(H, W, r, c - 1) if c > 0 and k < (1 if r > 0 else 0) + 1 else"
+      " (c06_flat(H, W, r, c + 1) if c < W - 1 and k < (1 if r > 0 else 0) + (1 if c > 0 else 0) + 1 else"
+      " (c06_flat(H, W, r + 1, c) if r < H - 1 and k < c06_deg(H, W, r, c) else -1))))")
+
+_RT = {"neighbors": "real[2]", "neighbors_sizes": "real[1]", "shape_native": "(int,int)"}
+_RL = {"H": "shape_native[0]", "W": "shape_native[1]", "NB": "neighbors", "SZ": "neighbors_sizes"}
+_RREQ = ["H >= 3", "W >= 3", "NB.shape[0] == H * W", "NB.shape[1] == 4", "SZ.shape[0] == H * W"]
+# the helpers return (aliases of) their array arguments; callers see the returned pair as arrays with the same contents
+_RRES = ["result[0].shape[0] == H * W", "result[0].shape[1] == 4", "result[1].shape[0] == H * W",
+         "forall(0, H * W, lambda p: forall(0, 4, lambda k: result[0][p, k] == NB[p, k]))",
+         "forall(0, H * W, lambda p: result[1][p] == SZ[p])"]
+
+
+def _rows(region, lo, hi=None):
+    """cells of `region` (a condition on r, c): the first `lo` entries of the row are the neighbours, the rest and every
+    other cell's row are unchanged"""
+    return ["forall(0, H, lambda r: forall(0, W, lambda c: implies(" + region + ", forall(0, 4, lambda k:"
+            " NB[" + _FL("r", "c") + ", k] == (c06_nbk(H, W, r, c, k) if k < " + str(lo) + " else old(NB)[" + _FL("r", "c") + ", k]))"
+            " and SZ[" + _FL("r", "c") + "] == c06_deg(H, W, r, c))))",
+            "forall(0, H, lambda r: forall(0, W, lambda c: implies(not (" + region + "), forall(0, 4, lambda k:"
+            " NB[" + _FL("r", "c") + ", k] == old(NB)[" + _FL("r", "c") + ", k])"
+            " and SZ[" + _FL("r", "c") + "] == old(SZ)[" + _FL("r", "c") + "])))"]
+
+
+def _helper(name, region, lo, loops):
+    contract(ME + name, props=["C06"], types=_RT, returns="(real[2],real[1])", let=_RL, requires=_RREQ,
+             modifies=["neighbors", "neighbors_sizes"], ensures=_rows(region, lo) + _RRES, loops=loops, timeout_ms=6000,
+             sentence={"c06_nbk": "the rows of these cells hold their 4-connected neighbours in ascending order; neighbors_sizes is the degree; all other rows are untouched"})
+
+
+_CORNER = "(r == 0 or r == H - 1) and (c == 0 or c == W - 1)"
+_helper("rectangular_corner_neighbors", _CORNER, 2, {})
+
+_TOP = "r == 0 and 1 <= c and c < W - 1"
+_helper("rectangular_top_edge_neighbors", _TOP, 3,
+        {0: {"inv": _rows("r == 0 and 1 <= c and c < pix", 3), "assert_at": {1: ["pixel_index == " + _FL("0", "pix")]}}})
+
+_LEFT = "c == 0 and 1 <= r and r < H - 1"
+_helper("rectangular_left_edge_neighbors", _LEFT, 3,
+        {0: {"inv": _rows("c == 0 and 1 <= r and r < pix", 3), "assert_at": {1: ["pixel_index == " + _FL("pix", "0")]}}})
+
+_RIGHT = "c == W - 1 and 1 <= r and r < H - 1"
+_helper("rectangular_right_edge_neighbors", _RIGHT, 3,
+        {0: {"inv": _rows("c == W - 1 and 1 <= r and r < pix", 3), "assert_at": {1: ["pixel_index == " + _FL("pix", "W - 1")]}}})
+
+_BOT = "r == H - 1 and 1 <= c and c < W - 1"
+_helper("rectangular_bottom_edge_neighbors", _BOT, 3,
+        {0: {"inv": _rows("r == H - 1 and W - 1 - pix < c and c < W - 1", 3), "assert_at": {1: ["pixel_index == " + _FL("H - 1", "W - 1 - pix")]}}})
+
+_CEN = "1 <= r and r < H - 1 and 1 <= c and c < W - 1"
+_helper("rectangular_central_neighbors", _CEN, 4,
+        {0: {"inv": _rows("1 <= r and r < x and 1 <= c and c < W - 1", 4)},
+         1: {"inv": _rows("1 <= c and c < W - 1 and ((1 <= r and r < x) or (r == x and c < y))", 4),
+             "assert_at": {1: ["pixel_index == " + _FL("x", "y")]}}})
+
+contract(
+    ME + "rectangular_neighbors_from", props=["C06", "C07"], types={"shape_native": "(int,int)"}, returns="(real[2],real[1])",
+    let={"H": "shape_native[0]", "W": "shape_native[1]"}, requires=["H >= 3", "W >= 3"], timeout_ms=6000,
+    ensures=["result[0].shape[0] == H * W", "result[0].shape[1] == 4", "result[1].shape[0] == H * W",
+             # row r*W+c holds the 4-connected neighbours of cell (r,c) in ascending order followed by -1; sizes is the degree
+             "forall(0, H, lambda r: forall(0, W, lambda c: forall(0, 4, lambda k: result[0][" + _FL("r", "c") + ", k] == c06_nbk(H, W, r, c, k))))",
+             "forall(0, H, lambda r: forall(0, W, lambda c: result[1][" + _FL("r", "c") + "] == c06_deg(H, W, r, c)))"],
+    sentence={"c06_nbk": "row r*W+c of neighbors holds the 4-connected neighbours of cell (r,c) in ascending order followed by -1, and neighbors_sizes is the degree"},
+)
+
+
+def _g_rect_helper(rng, tier):
+    for H in range(3, gens.budget(tier, 6, 8)):
+        for W in range(3, gens.budget(tier, 7, 9)):
+            for fill in (0, 1):
+                nb = -np.ones((H * W, 4)) if fill == 0 else gens.reals(rng, (H * W, 4), -5, 50, special=False).round()
+                sz = np.zeros(H * W) if fill == 0 else gens.reals(rng, (H * W,), 0, 9, special=False).round()
+                yield {"neighbors": nb, "neighbors_sizes": sz, "shape_native": (H, W)}
+
+
+def _g_rect(rng, tier):
+    for H in range(3, gens.budget(tier, 8, 12)):
+        for W in range(3, gens.budget(tier, 9, 13)):
+            yield {"shape_native": (H, W)}
+
+
+for _n in ("corner_neighbors", "top_edge_neighbors", "left_edge_neighbors", "right_edge_neighbors", "bottom_edge_neighbors", "central_neighbors"):
+    CONTRACTS[ME + "rectangular_" + _n].gen = _g_rect_helper
+    CONTRACTS[ME + "rectangular_" + _n].nontrivial = lambda shape_native, **kw: shape_native[0] != shape_native[1]
+CONTRACTS[ME + "rectangular_neighbors_from"].gen = _g_rect
+CONTRACTS[ME + "rectangular_neighbors_from"].nontrivial = lambda shape_native: shape_native[0] != shape_native[1]
+
+_ADJ4 = "((r2 == r and (c2 == c + 1 or c2 == c - 1)) or (c2 == c and (r2 == r + 1 or r2 == r - 1)))"
+_LISTED = "(" + " or ".join("R[0][" + _FL("{a}", "{b}") + ", %d] == " % k + _FL("{c}", "{d}") for k in range(4)) + ")"   # q in neighbors[p]
+corollary("C06.rect_neighbors_adjacency", props=["C06", "C07"],
+          vars={"shape_native": "(int,int)"}, let={"H": "shape_native[0]", "W": "shape_native[1]"}, requires=["H >= 3", "W >= 3"],
+          calls=[("R", ME + "rectangular_neighbors_from", {"shape_native": "shape_native"})],
+          ensures=[
+              # the neighbour list of a cell names exactly the cells at city-block distance one (mesh adjacency) ...
+              "forall(0, H, lambda r: forall(0, W, lambda c: forall(0, H, lambda r2: forall(0, W, lambda c2:"
+              " iff(" + _LISTED.format(a="r", b="c", c="r2", d="c2") + ", " + _ADJ4 + ")))))",
+              # ... so the lists are symmetric: q is listed for p iff p is listed for q
+              "forall(0, H, lambda r: forall(0, W, lambda c: forall(0, H, lambda r2: forall(0, W, lambda c2:"
+              " iff(" + _LISTED.format(a="r", b="c", c="r2", d="c2") + ", " + _LISTED.format(a="r2", b="c2", c="r", d="c") + ")))))",
+              # ascending order, padded with -1 beyond the degree
+              "forall(0, H, lambda r: forall(0, W, lambda c: forall(0, 4, lambda k:"
+              " (R[0][" + _FL("r", "c") + ", k] == -1 if k >= R[1][" + _FL("r", "c") + "] else"
+              " (0 <= R[0][" + _FL("r", "c") + ", k] and R[0][" + _FL("r", "c") + ", k] < H * W and (k == 0 or R[0][" + _FL("r", "c") + ", k - 1] < R[0][" + _FL("r", "c") + ", k]))))))",
+          ],
+          sentence="source-pixel neighbour lists of a rectangular mesh are symmetric and equal its 4-connectivity")
+
+
+# ----------------------------------------------------------------------------------------------- Delaunay weights
+# twice the signed area of triangle (a, b, c) by the shoelace formula; points are (first, second) coordinate.  The 2x2
+# determinant is opaque outside the contract of `delaunay_triangle_area_from`, so callers reason linearly over determinants.
+macro("c06_det", ["u0", "u1", "v0", "v1"], "u0 * v1 - u1 * v0", opaque=(["real"] * 4, "real"),
+      py=lambda u0, u1, v0, v1: float(u0 * v1 - u1 * v0))
+macro("c06_cross", ["a0", "a1", "b0", "b1", "c0", "c1"], "c06_det(a0, a1, b0, b1) + c06_det(b0, b1, c0, c1) + c06_det(c0, c1, a0, a1)")
+
+_ANTI = lambda a, b: "c06_det({a}[0], {a}[1], {b}[0], {b}[1]) == -c06_det({b}[0], {b}[1], {a}[0], {a}[1])".format(a=a, b=b)
+contract(
+    ME + "delaunay_triangle_area_from", props=["C06"],
+    types={"corner_0": "real[1]", "corner_1": "real[1]", "corner_2": "real[1]"}, returns="real",
+    requires=["corner_0.shape[0] >= 2", "corner_1.shape[0] >= 2", "corner_2.shape[0] >= 2"], reveal=["c06_det"],
+    ensures=["result >= 0",
+             "result == abs(c06_cross(corner_0[0], corner_0[1], corner_1[0], corner_1[1], corner_2[0], corner_2[1])) / 2",
+             # ghost facts for callers (where c06_det is an opaque symbol): the determinant is antisymmetric
+             _ANTI("corner_0", "corner_1"), _ANTI("corner_0", "corner_2"), _ANTI("corner_1", "corner_2")],
+    sentence={"c06_cross": "the area of the triangle spanned by the three corners"},
+)
+
+
+def _g_area(rng, tier):
+    for _ in range(gens.budget(tier, 300, 3000)):
+        yield {"corner_0": gens.reals(rng, (2,), -3, 3, special=False), "corner_1": gens.reals(rng, (2,), -3, 3, special=False),
+               "corner_2": gens.reals(rng, (2,), -3, 3, special=False)}
+
+
+CONTRACTS[ME + "delaunay_triangle_area_from"].gen = _g_area
+
+# vertex j (0, 1, 2) of the simplex of sub-pixel s and the data point, by coordinate
+_V = lambda j, d, s="s": "M[idx[%s, %d], %d]" % (s, j, d)
+_PT = lambda d, s="s": "G[%s, %d]" % (s, d)
+_ABC = lambda s="s": ", ".join(_V(j, d, s) for j in range(3) for d in range(2))
+_TRI = lambda s="s": "c06_cross(" + _ABC(s) + ")"                                                            # 2 * signed area(A, B, C)
+_SA = lambda s="s": "c06_cross(%s, %s, %s, %s, %s, %s)" % (_PT(0, s), _PT(1, s), _V(1, 0, s), _V(1, 1, s), _V(2, 0, s), _V(2, 1, s))   # (P, B, C)
+_SB = lambda s="s": "c06_cross(%s, %s, %s, %s, %s, %s)" % (_V(0, 0, s), _V(0, 1, s), _PT(0, s), _PT(1, s), _V(2, 0, s), _V(2, 1, s))   # (A, P, C)
+_SC = lambda s="s": "c06_cross(%s, %s, %s, %s, %s, %s)" % (_V(0, 0, s), _V(0, 1, s), _V(1, 0, s), _V(1, 1, s), _PT(0, s), _PT(1, s))   # (A, B, P)
+
+
+def _dw_row(W, s="s"):
+    """what the property says about the weights of sub-pixel s"""
+    bary = [x(s) + " / " + _TRI(s) for x in (_SA, _SB, _SC)]
+    return ("(" + W + "[{s}, 0] == 1 and " + W + "[{s}, 1] == 0 and " + W + "[{s}, 2] == 0 if idx[{s}, 1] == -1 else "
+            + W + "[{s}, 0] >= 0 and " + W + "[{s}, 1] >= 0 and " + W + "[{s}, 2] >= 0 and " + W + "[{s}, 0] + " + W + "[{s}, 1] + " + W + "[{s}, 2] == 1"
+            " and implies(" + " and ".join(b + " >= 0" for b in bary) + ", "
+            + " and ".join(W + "[{s}, %d] == " % j + b for j, b in enumerate(bary)) + "))").format(s=s)
+
+
+contract(
+    MU + "pixel_weights_delaunay_from", props=["C06"],
+    types={"source_plane_data_grid": "real[2]", "source_plane_mesh_grid": "real[2]", "slim_index_for_sub_slim_index": "int[1]",
+           "pix_indexes_for_sub_slim_index": "int[2]"},
+    returns="real[2]",
+    let={"G": "source_plane_data_grid", "M": "source_plane_mesh_grid", "idx": "pix_indexes_for_sub_slim_index",
+         "S": "slim_index_for_sub_slim_index.shape[0]", "V": "source_plane_mesh_grid.shape[0]"},
+    requires=["idx.shape[0] == S", "idx.shape[1] == 3", "G.shape[0] == S", "G.shape[1] == 2", "M.shape[1] == 2",
+              # a sub-pixel either lies in a simplex (three vertices in general position) or maps to one vertex followed by -1
+              "forall(0, S, lambda s: idx[s, 1] == -1 or (0 <= idx[s, 0] and idx[s, 0] < V and 0 <= idx[s, 1] and idx[s, 1] < V"
+              " and 0 <= idx[s, 2] and idx[s, 2] < V and " + _TRI() + " != 0))"],
+    ensures=["result.shape[0] == S", "result.shape[1] == 3",
+             # weights are non-negative, sum to one, and are the barycentric coordinates of the point when it lies in the triangle;
+             # outside the hull the nearest vertex alone carries the weight
+             "forall(0, S, lambda s: " + _dw_row("result") + ")"],
+    loops={0: {"inv": ["forall(0, sub_slim_index, lambda s: " + _dw_row("pixel_weights") + ")",
+                       "forall(sub_slim_index, S, lambda s: pixel_weights[s, 0] == 0 and pixel_weights[s, 1] == 0 and pixel_weights[s, 2] == 0)"],
+               # ghost steps for the current sub-pixel k: first the facts that need quantifier instantiation (linear), then the
+               # quantifier-free real arithmetic (areas are |cross|/2; the three sub-triangle crosses add up to the triangle's)
+               "assert_at": {2: [
+                   "implies(idx[sub_slim_index, 1] != -1, weight_abc[0] == area_0 / norm and weight_abc[1] == area_1 / norm and weight_abc[2] == area_2 / norm)",
+                   "implies(idx[sub_slim_index, 1] != -1, pixel_weights[sub_slim_index, 0] == weight_abc[0] and pixel_weights[sub_slim_index, 1] == weight_abc[1] and pixel_weights[sub_slim_index, 2] == weight_abc[2])",
+                   "implies(idx[sub_slim_index, 1] == -1, pixel_weights[sub_slim_index, 0] == 1 and pixel_weights[sub_slim_index, 1] == 0 and pixel_weights[sub_slim_index, 2] == 0)",
+                   "implies(idx[sub_slim_index, 1] != -1, " + _TRI("sub_slim_index") + " != 0)",
+                   "implies(idx[sub_slim_index, 1] != -1, area_0 == abs(" + _SA("sub_slim_index") + ") / 2 and area_1 == abs(" + _SB("sub_slim_index") + ") / 2 and area_2 == abs(" + _SC("sub_slim_index") + ") / 2)",
+                   "implies(idx[sub_slim_index, 1] != -1, " + _SA("sub_slim_index") + " + " + _SB("sub_slim_index") + " + " + _SC("sub_slim_index") + " == " + _TRI("sub_slim_index") + ")",
+                   "implies(idx[sub_slim_index, 1] != -1, norm > 0)",
+                   _dw_row("pixel_weights", "sub_slim_index")]}}},
+    timeout_ms=8000,
+    sentence={"c06_cross": "the weights of a sub-pixel are the barycentric coordinates of its source-plane position in the triangle containing it (the nearest vertex alone if outside the hull)"},
+)
+
+
+def _g_dw(rng, tier):
+    for _ in range(gens.budget(tier, 200, 3000)):
+        V, S = rng.randint(3, 7), rng.randint(0, 6)
+        M = gens.reals(rng, (V, 2), -2, 2, special=False)
+        G = gens.reals(rng, (S, 2), -2, 2, special=False)
+        idx = -np.ones((S, 3), dtype=int)
+        for s in range(S):
+            if rng.random() < 0.25:
+                idx[s, 0] = rng.randrange(V)
+                continue
+            tri = rng.sample(range(V), 3)
+            idx[s] = tri
+            if rng.random() < 0.6:          # a point inside the triangle (or on an edge / at a vertex)
+                lam = np.array([rng.random(), rng.random(), rng.choice([0.0, rng.random()])])
+                lam = lam / lam.sum() if lam.sum() > 0 else np.array([1.0, 0.0, 0.0])
+                G[s] = lam @ M[tri]
+        yield {"source_plane_data_grid": G, "source_plane_mesh_grid": M, "slim_index_for_sub_slim_index": np.zeros(S, dtype=int),
+               "pix_indexes_for_sub_slim_index": idx}
+
+
+CONTRACTS[MU + "pixel_weights_delaunay_from"].gen = _g_dw
+CONTRACTS[MU + "pixel_weights_delaunay_from"].nontrivial = lambda **kw: bool((kw["pix_indexes_for_sub_slim_index"][:, 1] >= 0).any())
+
+
+# ----------------------------------------------------------------------------------------------- sparse unique mappings
+# first sub-pixel of image pixel j when pixel i owns sub_size[i]^2 consecutive sub-pixels
+spec_fn(
+    "c06_off", params=[("ss", "int[1]"), ("j", "int")], ret="int", let={"D": "ss.shape[0]"},
+    axioms=["c06_off(ss, 0) == 0",
+            "forall(0, D, lambda j: c06_off(ss, j + 1) == c06_off(ss, j) + ss[j] * ss[j], pat=c06_off(ss, j + 1))"],
+    lemmas=[dict(name="mono", induct="n", lo=0, hi="D",
+                 stmt="forall(0, n + 1, lambda j1: 0 <= c06_off(ss, j1) and c06_off(ss, j1) <= c06_off(ss, n),"
+                      " pat=((c06_off(ss, j1), c06_off(ss, n)),))")],
+    py=lambda ss, j: int(sum(int(v) ** 2 for v in np.asarray(ss)[:j])),
+    doc="offset of the first sub-pixel of an image pixel in the sub-pixel ordering (C06 / C09)",
+)
+
+# partial matrix entry (ip, p): sub-fraction times the weight of source pixel p summed over the first m sub-pixels of image
+# pixel ip and the first k interpolation entries of the next one.  m = sub_size[ip]^2, k = 0 is entry (ip, p) of the matrix.
+macro("c06_mf", ["idx", "w", "sz", "ss", "ip", "p", "m", "k"],
+      "(1 / (ss[ip] * ss[ip])) * (sumto(m, lambda t: c06_wt(idx, w, sz, c06_off(ss, ip) + t, p))"
+      " + sumto(k, lambda j: (w[c06_off(ss, ip) + m, j] if idx[c06_off(ss, ip) + m, j] == p else 0)))")
+
+_UQ_LET = {"DP": "data_pixels", "PP": "pix_pixels", "idx": "pix_indexes_for_sub_slim_index", "w": "pix_weights_for_sub_slim_index",
+           "sz": "pix_sizes_for_sub_slim_index", "ss": "sub_size", "T": "pix_indexes_for_sub_slim_index.shape[0]",
+           "C": "pix_indexes_for_sub_slim_index.shape[1]"}
+_UQ_REQ = ["DP >= 1", "PP >= 0", "ss.shape[0] == DP", "sz.shape[0] == T", "w.shape[0] == T", "w.shape[1] == C",
+           "forall(0, DP, lambda j: ss[j] >= 1)",
+           "c06_off(ss, DP) == T",                               # pixel j owns sub_size[j]^2 consecutive sub-pixels
+           "forall(0, T, lambda t: 0 <= sz[t] and sz[t] <= C)",
+           "forall(0, T, lambda t: forall(0, sz[t], lambda k: 0 <= idx[t, k] and idx[t, k] < PP))"]
+
+
+def _uq_row(U, Wt, n, m, k, ip="ip"):
+    """columns c < n of row ip: integer source-pixel indices in range, pairwise distinct, carrying the (partial) matrix entry"""
+    mf = lambda p: "c06_mf(idx, w, sz, ss, %s, %s, %s, %s)" % (ip, p, m, k)
+    u = "%s[%s, c]" % (U, ip)
+    return ["forall(0, {n}, lambda c: {u} == toreal(toint({u})) and 0 <= toint({u}) and toint({u}) < PP)".format(n=n, u=u),
+            "forall(0, {n}, lambda c: {Wt}[{ip}, c] == {mf})".format(n=n, Wt=Wt, ip=ip, mf=mf("toint(%s)" % u)),
+            "forall({n}, {U}.shape[1], lambda c: {u} == -1 and {Wt}[{ip}, c] == 0)".format(n=n, U=U, u=u, Wt=Wt, ip=ip)]
+
+
+def _uq_done(U, Wt, L, hi):
+    """rows ip < hi are finished: the statement's sparse encoding of the matrix"""
+    n = "toint(%s[ip])" % L
+    mm = "ss[ip] * ss[ip]"
+    body = [x[len("forall("):] for x in []]
+    out = ["forall(0, {hi}, lambda ip: {L}[ip] == toreal({n}) and 0 <= {n} and {n} <= {U}.shape[1])".format(hi=hi, L=L, n=n, U=U)]
+    for cl in _uq_row(U, Wt, n, mm, "0"):
+        out.append("forall(0, %s, lambda ip: %s)" % (hi, cl))
+    # distinct columns
+    out.append("forall(0, {hi}, lambda ip: forall(0, {n}, lambda c1: forall(0, {n}, lambda c2: implies(c1 != c2, {U}[ip, c1] != {U}[ip, c2]))))".format(hi=hi, n=n, U=U))
+    # a source pixel that is not listed has a zero matrix entry
+    out.append("forall(0, {hi}, lambda ip: forall(0, PP, lambda p: implies(forall(0, {n}, lambda c: {U}[ip, c] != p),"
+               " c06_mf(idx, w, sz, ss, ip, p, {mm}, 0) == 0)))".format(hi=hi, n=n, U=U, mm=mm))
+    return out
+
+
+def _uq_untouched(lo):
+    return ["forall(%s, DP, lambda i2: forall(0, data_to_pix_unique.shape[1], lambda c: data_to_pix_unique[i2, c] == -1 and data_weights[i2, c] == 0))" % lo]
+
+
+def _uq_cur(m, k):
+    """the row being built (loop variables ip, pix_size; pix_check[p] is the column of source pixel p or -1)"""
+    mf = lambda p: "c06_mf(idx, w, sz, ss, ip, %s, %s, %s)" % (p, m, k)
+    pc = "pix_check[p]"
+    return (["0 <= pix_size", "pix_size <= (%s) * max_pix_mappings + %s" % (m, k)]
+            + _uq_row("data_to_pix_unique", "data_weights", "pix_size", m, k)
+            + ["forall(0, pix_size, lambda c: pix_check[toint(data_to_pix_unique[ip, c])] == c)",
+               "forall(0, PP, lambda p: {pc} == -1 or ({pc} == toreal(toint({pc})) and 0 <= toint({pc}) and toint({pc}) < pix_size"
+               " and data_to_pix_unique[ip, toint({pc})] == p))".format(pc=pc),
+               "forall(0, PP, lambda p: implies({pc} == -1, {mf} == 0))".format(pc=pc, mf=mf("p"))])
+
+
+_UQ_K = MU + "data_slim_to_pixelization_unique_from"
+_M1 = "ip_sub - ip_sub_start"
+contract(
+    _UQ_K, props=["C06"],
+    types={"data_pixels": "int", "pix_indexes_for_sub_slim_index": "int[2]", "pix_sizes_for_sub_slim_index": "int[1]",
+           "pix_weights_for_sub_slim_index": "real[2]", "pix_pixels": "int", "sub_size": "int[1]"},
+    returns="(real[2],real[2],real[1])", let=_UQ_LET, requires=_UQ_REQ, timeout_ms=6000,
+    ensures=["result[0].shape[0] == DP", "result[1].shape[0] == DP", "result[1].shape[1] == result[0].shape[1]", "result[2].shape[0] == DP"]
+            + _uq_done("result[0]", "result[1]", "result[2]", "DP"),
+    loops={
+        0: {"inv": ["ip_sub_start == c06_off(ss, ip)"] + _uq_done("data_to_pix_unique", "data_weights", "pix_lengths", "ip") + _uq_untouched("ip")},
+        1: {"inv": _uq_done("data_to_pix_unique", "data_weights", "pix_lengths", "ip") + _uq_untouched("ip + 1") + _uq_cur(_M1, "0")},
+        2: {"inv": _uq_done("data_to_pix_unique", "data_weights", "pix_lengths", "ip") + _uq_untouched("ip + 1") + _uq_cur(_M1, "pix_interp_index")},
+    },
+    sentence={"c06_mf": "the sparse unique-mapping representation encodes exactly the same matrix: distinct columns per row, summed weights"},
+)
